@@ -74,7 +74,10 @@ def build_corpus(tier, rng):
                 vals.append((i, [s[0]] + d[1:], "mut-of-default"))
         snakes = [x for x in alln.strip("[]").split(";")]
         absent_is = ["is_" + snakes[i] for i, v in enumerate(it.variants) if v.has("disabled") and "is_" + snakes[i] not in is_names]
+        absent_tryas = ["try_as_" + snakes[i] for i, v in enumerate(it.variants)
+                        if (v.has("disabled") or v.kind != "tuple") and "try_as_" + snakes[i] not in ta]
         k = c.add_def(it, family=fam, derives=["EnumIs", "EnumTryAs"], is_names=is_names, tryas_names=list(zip(ta, tuple_vs)), absent_is=absent_is,
+                      absent_tryas=absent_tryas,
                       vals=vals, std_derives=["Debug", "Clone", "PartialEq"], bounds="Default + Clone + PartialEq + core::fmt::Debug" if it.tparams else "")
         for j, (i, _, tag) in enumerate(vals):
             c.add_q(k, "is", [j, i], note=tag)
@@ -112,7 +115,12 @@ def compare(corpus, k, kind, args, note, iobs, mobs, cfg):
             return False, True, "model: %d predicates true for variant %d" % (len(trues), i)
         return ok, True, None
     parts = [x for x in iobs.strip("[]").split(";") if x]
-    if not parts and not meta["tryas_names"]:
+    ab = [x for x in parts if x.startswith("absent=")]
+    parts = [x for x in parts if not x.startswith("absent=")]
+    na = len(meta.get("absent_tryas", []))
+    if na and ab != ["absent=%d/%d" % (na, na)]:
+        return False, True, "a try_as_*_ref method exists for a disabled or non-tuple variant (%s)" % ab
+    if len(parts) <= 2 and not meta["tryas_names"]:
         return mobs == "[]", True, None
     selfobs = parts[0][len("self="):]
     mutobs = parts[1][len("mut="):]
